@@ -161,13 +161,14 @@ class SV:
                 _align_base(self, key, "mask")
                 sg, m = self.guard, key.at
                 if not key.dense():
-                    raise Unsupported("indexing with a compressed mask")
+                    # a mask computed from a compressed vector selects among its positions: same base guard required
+                    _align(self, key)
+                    return SV(self.n, self.at, self.kind, lambda i: z3.And(sg(i), tobool(m(i))), arange=self.arange)
                 if sg is None:
                     g = lambda i: tobool(m(i))
                 else:
-                    # mask over the *compressed* positions is not representable; only base-aligned masks are
                     raise Unsupported("boolean mask applied to an already compressed vector")
-                return SV(self.n, self.at, self.kind, g)
+                return SV(self.n, self.at, self.kind, g, arange=self.arange)
             if key.kind == "i" and key.arange:
                 # np.arange(m)[mask] used as an index array == boolean selection by that mask
                 _align_n(self, key)
@@ -495,45 +496,47 @@ def _nonzero(e, kind):
     return z3.Or(e.nan, e.r != 0)
 
 
+_K = z3.Int("vcx_K")
+
+
+def count_pred(n, dom, pred, dense_total=None):
+    """Number of indices i in [0, n) with dom(i) and pred(i).  Cached on the syntactic predicate, so that
+    np.count_nonzero(mask), len(v[mask]) and v[mask].size denote the same integer."""
+    c = cur()
+    body = z3.simplify(z3.And(dom(_K), pred(_K)))
+    key = ("count", n.get_id(), body.get_id())
+    if key in c.ghost:
+        return c.ghost[key][0]
+    cnt = z3.Int(c.fresh_name("count"))
+    w, w2, w0 = (z3.Int(c.fresh_name("vcx_w")) for _ in range(3))
+    c.witnesses += [w, w2, w0]
+    sel = lambda i: z3.And(0 <= i, i < n, dom(i), pred(i))
+    j = z3.Int(c.fresh_name("vcx_i"))
+    with QScope(c, j) as qs:
+        bj = z3.And(dom(j), pred(j))
+    ax = qs.conj()
+    rng = z3.And(0 <= j, j < n)
+    c.assume(z3.And(0 <= cnt, cnt <= n, n >= 0))
+    c.assume(z3.Implies(cnt == 0, z3.ForAll([j], z3.And(ax, z3.Implies(rng, z3.Not(bj))))))
+    c.assume(z3.Implies(cnt > 0, sel(w)))
+    c.assume(z3.Implies(cnt == 1, z3.ForAll([j], z3.And(ax, z3.Implies(z3.And(rng, bj), j == w)))))
+    c.assume(z3.Implies(cnt >= 2, z3.And(sel(w2), w2 != w)))
+    c.assume(z3.Implies(cnt == n, z3.ForAll([j], z3.And(ax, z3.Implies(rng, bj)))))
+    c.assume(z3.Implies(cnt < n, z3.And(0 <= w0, w0 < n, z3.Not(z3.And(dom(w0), pred(w0))))))
+    r = SI(cnt)
+    c.ghost[key] = (r, body)
+    return r
+
+
 def count_nonzero(v):
     if isinstance(v, Concat):
         return v.count_nonzero()
-    c = cur()
-    cnt = z3.Int(c.fresh_name("count"))
-    w = _at_const(v)
-    w0 = _at_const(v)
-    c.assume(z3.And(0 <= cnt, cnt <= v.n, v.n >= 0))
-    c.assume(z3.Implies(cnt == 0, _forall(v, lambda i: z3.Not(_nonzero(v.at(i), v.kind)))))
-    c.assume(z3.Implies(cnt > 0, z3.And(v.indom(w), _nonzero(v.at(w), v.kind))))
-    # exactly one selected element <=> count == 1
-    w2 = _at_const(v)
-    c.assume(z3.Implies(cnt == 1, _forall(v, lambda i: z3.Implies(_nonzero(v.at(i), v.kind), i == w))))
-    c.assume(z3.Implies(cnt >= 2, z3.And(v.indom(w2), w2 != w, _nonzero(v.at(w2), v.kind))))
-    if v.dense():
-        c.assume(z3.Implies(cnt == v.n, _forall(v, lambda i: _nonzero(v.at(i), v.kind))))
-        c.assume(z3.Implies(cnt < v.n, z3.And(v.indom(w0), z3.Not(_nonzero(v.at(w0), v.kind)))))
-    return SI(cnt)
+    return count_pred(v.n, v.g, lambda i: _nonzero(v.at(i), v.kind))
 
 
 def count_guard(v):
     """Number of selected positions of a compressed vector."""
-    c = cur()
-    key = ("count_guard", id(v), v.version)
-    if key in c.ghost:
-        return c.ghost[key]
-    cnt = z3.Int(c.fresh_name("size"))
-    w = _at_const(v)
-    w0 = _at_const(v)
-    c.assume(z3.And(0 <= cnt, cnt <= v.n, v.n >= 0))
-    j = z3.Int(c.fresh_name("vcx_i"))
-    rng = z3.And(0 <= j, j < v.n)
-    c.assume(z3.Implies(cnt == 0, z3.ForAll([j], z3.Implies(rng, z3.Not(v.g(j))))))
-    c.assume(z3.Implies(cnt > 0, v.indom(w)))
-    c.assume(z3.Implies(cnt == v.n, z3.ForAll([j], z3.Implies(rng, v.g(j)))))
-    c.assume(z3.Implies(cnt < v.n, z3.And(0 <= w0, w0 < v.n, z3.Not(v.g(w0)))))
-    r = SI(cnt)
-    c.ghost[key] = r
-    return r
+    return count_pred(v.n, v.g, lambda i: TRUE)
 
 
 class FlatNonzero:
